@@ -1,4 +1,4 @@
-from sa.selftest.harness import M, T
+from sa.selftest.harness import M, T, Variant
 
 X = "sharepoint2text/parsing/extractors/"
 EP = "sharepoint2text/parsing/extractors/epub_extractor.py"
@@ -26,6 +26,7 @@ MUTANTS = [
     M("7z-encrypted-class-also-for-unsupported", "sharepoint2text/parsing/extractors/util/sevenzip.py", "        raise Bad7zFile(f\"Unsupported compression method: {coder_id.hex()}\")", "        raise Encrypted7zFile(f\"Unsupported compression method: {coder_id.hex()}\")", "C08-OVER"),
 ]
 TWINS = [
+    T("pdf-fallback-under-local-alias", "sharepoint2text/parsing/extractors/pdf/pdf_extractor.py", "    if reader.is_encrypted:\n        # AES-128 (V4) files open without AES", "    encrypted = reader.is_encrypted\n    if encrypted:\n        # AES-128 (V4) files open without AES"),
     T("detector-result-in-variable", X + "ms_legacy/ppt_extractor.py", "        if is_ppt_encrypted(file_like):\n            raise ExtractionFileEncryptedError(\"PPT is encrypted or password-protected\")", "        if is_ppt_encrypted(file_like):\n            logger.debug(\"encrypted ppt\")\n            raise ExtractionFileEncryptedError(\"PPT is encrypted or password-protected\")"),
     T("hex-vs-decimal-mask", X + "archive_extractor.py", "if info.flag_bits & 0x1:", "if info.flag_bits & 1:"),
     T("epub-not-all-form", EP, "            if any(not _is_font_obfuscation(e) for e in encrypted):", "            if not all(_is_font_obfuscation(e) for e in encrypted):"),
